@@ -23,10 +23,10 @@ Definition c_or (a b : option bool) : option bool :=
   match a with None => None | Some true => Some true | Some false => b end.
 Definition ite (c : option bool) (a b : outcome) : outcome :=
   match c with None => KeyErr | Some true => a | Some false => b end.
-(** [out[k] = D[k]] *)
-Definition v_take (s : side) (present : bool) : outcome := if present then Take s else KeyErr.
-(** [out[k] = update_config(A[k], B[k])]: arguments evaluated left to right *)
-Definition v_rec (a b : side) (pa pb : bool) : outcome := if pa then (if pb then Rec a b else KeyErr) else KeyErr.
+(** a subscript [D[k]] is evaluated at this point of the iteration: KeyError unless [k in D]; the continuation is
+    what the rest of the iteration does (stores are [Take] / [Rec] at the leaves; [out[k] = update_config(A[k], B[k])]
+    evaluates its arguments left to right) *)
+Definition v_guard (present : bool) (o : outcome) : outcome := if present then o else KeyErr.
 
 Definition osome {A} (o : option A) : bool := match o with Some _ => true | None => false end.
 Definition oobj (o : option json) : bool := match o with Some v => is_obj v | None => false end.
